@@ -63,6 +63,31 @@ def relabelPrivateOld (d : Nat) : List Net → List Net
   | [] => []
   | first :: rest => (first :: rest).map (shiftNet first.addr (alignDown d first.mask))
 
+/-- `sorted(private_nets)`: the private networks in ascending order of their addresses -/
+def sortNets (nets : List Net) : List Net := nets.mergeSort (fun a b => decide (a.addr ≤ b.addr))
+
+/-- `IPAddress.is_ipv4_private_use()`: the three RFC 1918 blocks -/
+def isPrivateAddr (a : Nat) : Bool :=
+  (167772160 ≤ a && a ≤ 184549375) ||        -- 10.0.0.0/8
+  (2886729728 ≤ a && a ≤ 2887778303) ||      -- 172.16.0.0/12
+  (3232235520 ≤ a && a ≤ 3232301055)         -- 192.168.0.0/16
+
+def allPrivate (nets : List Net) : Bool := nets.all (fun n => isPrivateAddr n.addr)
+
+/-- address arithmetic that leaves the IPv4 range raises `IndexError` in netaddr -/
+def overflows (nets : List Net) : Bool := nets.any (fun n => decide (4294967296 ≤ n.addr))
+
+/-- the retry loop of `_create_new_network_mapping` over the values drawn one after the other: a draw whose result leaves
+the address space counts as a failed attempt (after more than ten of them the current networks are kept); a draw whose result
+is not all private is simply repeated; the first draw whose result is all private is taken.  (`[]`: out of drawn values - the
+loop has not ended; reported as "keep", never reached when the real loop ended.) -/
+def relabelLoop : List Nat → Nat → List Net → List Net
+  | [], _, nets => nets
+  | d :: ds, errs, nets =>
+    let r := relabelPrivate d nets
+    if overflows r then (if 10 < errs + 1 then nets else relabelLoop ds (errs + 1) nets)
+    else if allPrivate r then r else relabelLoop ds errs nets
+
 /-- one network's part of the address draw: its hosts paired with the first entries of the shuffled address list of the new
 network (`mapping_ips[ip] = ip_list[i]`) -/
 def assignHosts (hosts addrs : List IP) : AMap IP IP := hosts.zip addrs
